@@ -1296,6 +1296,12 @@ impl RestoreManager {
         }
 
         let metadata: BackupMetadata = serde_json::from_str(&fs::read_to_string(metadata_path)?)?;
+        anyhow::ensure!(
+            metadata.id == backup_id,
+            "Backup metadata file of {} holds the record of {}",
+            backup_id,
+            metadata.id
+        );
 
         // Verify this is a full backup or build chain
         let restore_chain = if metadata.backup_type == BackupType::Full {
@@ -1322,6 +1328,12 @@ impl RestoreManager {
                 }
 
                 current = serde_json::from_str(&fs::read_to_string(parent_path)?)?;
+                anyhow::ensure!(
+                    current.id == parent_id,
+                    "Backup metadata file of {} holds the record of {}",
+                    parent_id,
+                    current.id
+                );
                 chain.push(current.clone());
 
                 if current.backup_type == BackupType::Full {
